@@ -101,6 +101,12 @@ def build(sp):
     enums = {}
     for e in sp.enums:
         en = E.EEnum(e['name'], literals=e['literals'])
+        # (a literal may carry a `literal` text beside its name, as Eclipse-authored metamodels do; documents name literals
+        # by their names)
+        for j, lit in enumerate(en.eLiterals):
+            if (len(e['name']) + j) % 3 == 0:
+                lit.literal = f'{lit.name.lower()} text'
+
         pk.eClassifiers.append(en)
         enums[e['name']] = en
     classes = {}
